@@ -348,7 +348,7 @@ FIXED = ['http://h/%aF', 'http://\uff11.\uff12.\uff13.\uff10\uff58\uff14/', 'htt
          'http://h/?q=a+b', 'http://1.2.3.4.5/', 'http://h./', 'http://h../', 'http://.h/', 'x.y:80', 'x.y:zz',
          'http://u:p:q@h/', 'http://h/\x7f', 'http://h\x7f/', 'javascript:alert(1)', 'http://h/%', 'http://h/%4', 'http://h/%%41',
          'http://h/%4%41', 'http://h/%%%', 'http://h/%A%aa%a',
-         'http://h:' + '1' * 4400 + '/']
+         'http://h:' + '0' * 4400 + '1/', 'http://h:' + '0' * 4290 + '8080/']
 
 
 def generate(r, n, repo, enc_mix=True):
@@ -658,13 +658,20 @@ def classify(v):
 def correspondence(ctx, tag='c10', n_quick=6000, n_thorough=200000, pred=is_c10_reason, gen=None, script='c10_impl.py'):
     r = common.rng(tag)
     n = n_thorough if ctx.thorough else n_quick
+    import time
+    t0 = time.time()
     cases = (gen or generate)(r, n, ctx.repo)
     results = run_impl_parse(cases, script=script)
+    t1 = time.time()
     dis = run_model(cases, results)
+    t2 = time.time()
     ncomp, cdis = run_components(common.rng(tag + '-components'), 3000 if not ctx.thorough else 30000)
     dis += cdis
+    t3 = time.time()
     sdis, samples = check_constants_and_samples(cases, results)
     dis += sdis
+    timing = {'impl_s': round(t1 - t0, 1), 'model_s': round(t2 - t1, 1), 'components_s': round(t3 - t2, 1),
+              'samples_s': round(time.time() - t3, 1)}
     hist = {}
     kinds = {}
     nontriv = set()
@@ -696,6 +703,7 @@ def correspondence(ctx, tag='c10', n_quick=6000, n_thorough=200000, pred=is_c10_
         'samples': [ascii(un6(cases[i]['url'])) for i in (len(cases) // 3, len(cases) // 2, len(cases) - 1)],
         'input_distribution': hist,
         'oracle_samples': samples,
+        'stage_seconds': timing,
         'component_cases': ncomp,
         'disagreements': dis,
         'impl_violations': violations_from(cases, results, pred),
